@@ -314,8 +314,8 @@ struct CppWorld : World {
                 else if (k < 65) {
                     int how = ccls[c] == C_ISAP ? (int)r.below(5) : (int)r.pickv({0, 1, 2, 4});
                     pl.add("setkey", {c, how, (int64_t)(r.next() >> 1)});
-                } else if (k < 73) pl.add("setnonce", {c, r.pickv({0, 1, 8, 15, 16, 17, 24}), (int64_t)(r.next() >> 1)});
-                else if (k < 78) pl.add("setcounter", {c, (int64_t)(r.chance(1, 2) ? r.below(1000) : (r.next() >> 1))});
+                } else if (k < 73) pl.add("setnonce", {c, r.pickv({0, 1, 8, 15, 16, 17, 24}), (int64_t)(r.next() >> 1), (int64_t)(r.chance(1, 3) ? 1 + r.below(16) : 0)});
+                else if (k < 78) pl.add("setcounter", {c, (int64_t)(r.chance(1, 2) ? r.below(1000) : (r.next() >> 1)), (int64_t)r.below(6)});
                 else if (k < 83) pl.add("savekey", {c});
                 else if (k < 87) pl.add("randomize", {c});
                 else if (k < 92) { pl.add("clear", {c}); cusable[c] = false; }
@@ -581,6 +581,8 @@ struct CppWorld : World {
                 if (!C.live) continue;
                 size_t len = (size_t)(op.u(1) % 25);
                 Bytes nb = bytes_of(len, op.u(2) ^ 0x6e ^ c.salt);
+                // a third of the nonces end in a chain of 0xFF bytes: the packets that follow carry through it
+                for (size_t k = 0; k < (size_t)(op.u(3) % 17) && k < len; ++k) nb[len - 1 - k] = 0xFF;
                 uint8_t full[16] = {0};
                 if (len >= 16) memcpy(full, nb.data(), 16); else if (len) memcpy(full + 16 - len, nb.data(), len);
                 GuardBuf g(len, 1, false);
@@ -592,8 +594,15 @@ struct CppWorld : World {
             } else if (nm == "setcounter") {
                 Cipher &C = c.c[op.u(0) % NC];
                 if (!C.live) continue;
-                C.obj->set_counter(op.u(1));
-                C.nonce = (u128)op.u(1);
+                uint64_t cnt = op.u(1);
+                switch (op.u(2) % 6) { // counters next to a carry out of the low 8 bytes, of the low 4, of the low 7
+                case 1: cnt = ~(uint64_t)0 - (op.u(1) % 3); break;
+                case 2: cnt = 0xFFFFFFFFull - (op.u(1) % 3); break;
+                case 3: cnt = 0x00FFFFFFFFFFFFFFull - (op.u(1) % 3); break;
+                default: break;
+                }
+                C.obj->set_counter(cnt);
+                C.nonce = (u128)cnt;
                 C.nonce_known = true;
                 if (C.key_known) C.usable = true;
             } else if (nm == "savekey") {
